@@ -26,6 +26,8 @@ type ovCase struct {
 	Listing []int      `json:"listing"`
 	Styles  []string   `json:"styles"`
 	Unary   bool       `json:"unary"`
+	Naming  string     `json:"naming"`  // plain | under: identifiers contain an underscore
+	GopoSep string     `json:"gopoSep"` // separator the model expects in the Gopo_ constant's name
 	Table   []struct {
 		Kind string `json:"kind"`
 		Ix   int    `json:"ix"`
@@ -198,6 +200,11 @@ func (c *ovCase) render(idx int, op string) string {
 		w("\t_ = %svfoo\n", op)
 	}
 	w("}\n")
+	if c.Naming == "under" {
+		// f3n2 -> f_3n2, T3 -> T_3, m3 -> m_3, o3f1 -> o_3f1, foo3 -> foo_3 (case3 stays)
+		re := regexp.MustCompile(fmt.Sprintf(`\b(foo|f|T|m|o)(%d)((?:n|f)\d+)?\b`, idx))
+		return re.ReplaceAllString(sb.String(), "${1}_${2}${3}")
+	}
 	return sb.String()
 }
 
@@ -241,13 +248,13 @@ func runOverload() {
 		c := &cases[i]
 		u := units[i]
 		n := len(c.Cands)
-		in := map[string]any{"fam": c.Fam, "cands": c.Cands, "listing": c.Listing, "styles": c.Styles, "unary": c.Unary, "op": ops[i]}
+		in := map[string]any{"fam": c.Fam, "cands": c.Cands, "listing": c.Listing, "styles": c.Styles, "unary": c.Unary, "op": ops[i], "naming": c.Naming}
 		arity := ""
 		for _, t := range c.Cands {
 			arity += fmt.Sprint(len(t))
 		}
 		res := hlib.Result{Idx: i, V: "ok", Input: in,
-			NT: fmt.Sprintf("%s/%s/%v/%s/u%v", c.Fam, strings.Join(c.Styles, ","), c.Listing, arity, c.Unary)}
+			NT: fmt.Sprintf("%s/%s/%v/%s/u%v/%s", c.Fam, strings.Join(c.Styles, ","), c.Listing, arity, c.Unary, c.Naming)}
 		cls := c.Fam + ":" + c.styleClass()
 		switch {
 		case len(c.Want) != n+b2i(c.Unary):
@@ -316,6 +323,9 @@ func (c *ovCase) tableDrift(gosrc string) string {
 		}
 	}
 	m := reGopo.FindStringSubmatch(gosrc)
+	if m != nil && c.GopoSep != "" && strings.HasPrefix(m[0], "const Gopo__") != (c.GopoSep == "__") {
+		return fmt.Sprintf("model expects separator %q in the name of the Gopo_ constant; code emits %.40s", c.GopoSep, m[0])
+	}
 	if allLit {
 		if m != nil {
 			return "model: no Gopo_ constant for an all-literal overload; code emits " + m[0]
